@@ -53,6 +53,7 @@ type callObs struct {
 	Res     string `json:"res"`    // quasigo: i:<n> | s:<hex> | b:<bool> | v | P:<msg> | T
 	Oracle  string `json:"oracle"` // go toolchain, same encoding
 	Trace   string `json:"trace"`  // Coq list of (native id, args, results) observed during the quasigo run
+	VL0     int    `json:"vl0"`    // variadicLen left in the EvalEnv by earlier evaluations (set before the call)
 }
 
 type progObs struct {
@@ -285,7 +286,7 @@ func typecheck(src string) (*checked, error) {
 	return &checked{fset, f, info, pkg}, nil
 }
 
-func callWithTimeout(env *quasigo.EvalEnv, fn *quasigo.Func, res gty, at argTuple, d time.Duration) string {
+func callWithTimeout(env *quasigo.EvalEnv, fn *quasigo.Func, res gty, at argTuple, vl0 int, d time.Duration) string {
 	done := make(chan string, 1)
 	go func() {
 		defer func() {
@@ -294,6 +295,8 @@ func callWithTimeout(env *quasigo.EvalEnv, fn *quasigo.Func, res gty, at argTupl
 			}
 		}()
 		env.Stack.Reset()
+		// the EvalEnv outlives a call (it lives in the RunnerState): start from what an earlier evaluation left
+		quasigo.VerifSetVariadicLen(&env.Stack, vl0)
 		at.push(&env.Stack)
 		r := quasigo.Call(env, fn)
 		done <- encodeResult(res, r)
@@ -456,13 +459,14 @@ func main() {
 				for t := 0; t < nt; t++ {
 					at := mkArgs(r, f.params)
 					tr.entries = nil
-					res := callWithTimeout(evalEnv, compiled[fi], f.res, at, 2*time.Second)
+					vl0 := []int{0, 3, 1, 2, 7}[(len(po.Calls)+t)%5]
+					res := callWithTimeout(evalEnv, compiled[fi], f.res, at, vl0, 2*time.Second)
 					if res == "T" {
 						// the abandoned goroutine still owns evalEnv
 						evalEnv = env.GetEvalEnv()
 					}
 					ci := len(po.Calls)
-					po.Calls = append(po.Calls, callObs{F: fi, ArgsGo: at.goText, ArgsCoq: at.coqText, Res: res, Trace: coqList(tr.entries)})
+					po.Calls = append(po.Calls, callObs{F: fi, ArgsGo: at.goText, ArgsCoq: at.coqText, Res: res, Trace: coqList(tr.entries), VL0: vl0})
 					call := fmt.Sprintf("P%d_qf%d(%s)", pi, fi, at.goText)
 					switch f.res {
 					case gInt:
